@@ -326,11 +326,30 @@ Print Assumptions C11_gen_ok_sound.
 
 (* and complete on the model's traces of the adaptors with a full specification *)
 Theorem C11_adaptors_checker_complete : forall c n,
-  match c with XRelay _ | XStreamReady _ | XFlatMapStream _ _ | XFlattenStream _
+  match c with XRelay _ | XSource _ | XStreamReady _ | XFlatMapStream _ _ | XFlattenStream _
            | XFilterMapAsync _ _ => True | _ => False end ->
   tr_items (xrun c n) <> None -> gen_ok (xref c) (xfused c) (xrun c n) = true.
 Proof. exact xmodel_holds. Qed.
 Print Assumptions C11_adaptors_checker_complete.
+
+(* a binary combinator (zip, chain, zip_longest, cross_singleton) over two pipelines, as the
+   check runs it ([brun], Pull/CorrP.v): under the checkable side conditions (horizons, fused
+   inputs where FusedPull is demanded) the composed model emits the adaptor of the two sides *)
+Theorem C11_binary_pipeline_model : forall (c : bcase) n,
+  horizon_ok (b_sa c) (b_h c) (s_scr (b_a c), sh (b_a c)) = true ->
+  horizon_ok (b_sb c) (b_h c) (s_scr (b_b c), sh (b_b c)) = true ->
+  bpre c = true -> has_end (brun c n) = true ->
+  tr_items_until (brun c n) = bref c.
+Proof. exact bpipe_items. Qed.
+Print Assumptions C11_binary_pipeline_model.
+
+(* next: Pending once per leading Pending answer, then the pull's first other answer *)
+Theorem C11_next : forall (A : Type) (l : script A),
+  exists rest, l = repeat Pend (N.to_nat (fst (next_res l))) ++ rest /\
+               fst (src_pull rest) = snd (next_res l) /\
+               match rest with Pend :: _ => False | _ => True end.
+Proof. exact @next_spec. Qed.
+Print Assumptions C11_next.
 
 (* non-vacuity: concrete scripts with Pend between the two sides of a zip, inside a flat_map's
    inner iterator, and a non-fused source under Fuse *)
